@@ -151,3 +151,199 @@ Proof.
     + cbn. repeat constructor; cbn; intuition discriminate.
   - repeat constructor. eapply CNode; [reflexivity|reflexivity|]. repeat constructor.
 Qed.
+
+(* ---------- exact Count entries everywhere: the count-down n-1 .. 0 after each yielded page ---------- *)
+
+Lemma lowers_cons id h r : lowers ((id, h) :: r) = fst h :: lowers r.
+Proof. reflexivity. Qed.
+
+Lemma sumN_app a b : sumN (a ++ b) = (sumN a + sumN b)%N.
+Proof. induction a as [|x a IH]; cbn [app sumN]; [reflexivity|]. rewrite IH. lia. Qed.
+
+Definition fleaves (f : list ptree) : nat := length (flat_map leaves f).
+Definition sleaves (st : list (list ptree)) : nat := length (flat_map (flat_map leaves) st).
+
+Lemma fleaves_cons t f : fleaves (t :: f) = length (leaves t) + fleaves f.
+Proof. unfold fleaves. cbn [flat_map]. apply app_length. Qed.
+Lemma sleaves_cons s st : sleaves (s :: st) = fleaves s + sleaves st.
+Proof. unfold sleaves, fleaves. cbn [flat_map]. apply app_length. Qed.
+
+Lemma fleaves_le_fsize f : fleaves f <= fsize f.
+Proof.
+  unfold fleaves, fsize. induction f as [|t f IH]; cbn [flat_map]; [lia|].
+  rewrite !app_length. pose proof (leaves_le_ids t). lia.
+Qed.
+Lemma sleaves_le_ssize st : sleaves st <= ssize st.
+Proof.
+  induction st as [|s st IH]; [reflexivity|]. rewrite sleaves_cons, ssize_cons.
+  pose proof (fleaves_le_fsize s). lia.
+Qed.
+
+Section Count.
+  Variable m : objmap.
+  Let L := N.to_nat PAGE_TREE_DEPTH_LIMIT.
+
+  Lemma sum_forest f :
+    Forall (represents m) f -> Forall (counts_exact m) f ->
+    sumN (map (kid_count m) (map ref_of f)) = N.of_nat (fleaves f).
+  Proof. apply sum_counts. Qed.
+
+  Lemma sum_stack st :
+    Forall (Forall (represents m)) st -> Forall (Forall (counts_exact m)) st ->
+    sumN (map (kid_count m) (concat (rev (map (map ref_of) st)))) = N.of_nat (sleaves st).
+  Proof.
+    intros Hr Hc. induction st as [|s st IH]; [reflexivity|].
+    inversion Hr; inversion Hc; subst.
+    cbn [map rev]. rewrite concat_app, map_app, sumN_app. cbn [concat]. rewrite app_nil_r.
+    rewrite IH, sum_forest, sleaves_cons by assumption. lia.
+  Qed.
+
+  Lemma hint_forest l f st :
+    Forall (represents m) f -> Forall (Forall (represents m)) st ->
+    Forall (counts_exact m) f -> Forall (Forall (counts_exact m)) st ->
+    fsize f + ssize st <= l -> (N.of_nat l <= USIZE_MAX)%N ->
+    fst (hint m l (map ref_of f) (map (map ref_of) st)) = N.of_nat (fleaves f + sleaves st).
+  Proof.
+    intros Hf Hst Cf Cst Hsz Hmax. unfold hint, pending; cbn [fst].
+    rewrite fold_sat by (unfold USIZE_MAX; lia).
+    rewrite map_app, sumN_app, sum_forest, sum_stack by assumption.
+    pose proof (fleaves_le_fsize f). pose proof (sleaves_le_ssize st). lia.
+  Qed.
+
+  Lemma iter_hints_pop limit s st : iter_hints limit m [] (s :: st) = iter_hints limit m s st.
+  Proof. destruct limit; reflexivity. Qed.
+
+  Lemma counts_kids id ks : counts_exact m (PNode id ks) -> Forall (counts_exact m) ks.
+  Proof. intro H; inversion H; subst; assumption. Qed.
+
+  Lemma fleaves_node id ks rest : fleaves (PNode id ks :: rest) = fleaves ks + fleaves rest.
+  Proof. rewrite fleaves_cons. reflexivity. Qed.
+
+  Lemma iter_hints_forest :
+    forall limit F0 st,
+      Forall (represents m) F0 ->
+      Forall (Forall (represents m)) st ->
+      Forall (counts_exact m) F0 ->
+      Forall (Forall (counts_exact m)) st ->
+      stack_ok L (F0 :: st) ->
+      fsize F0 + ssize st <= limit ->
+      (N.of_nat limit <= USIZE_MAX)%N ->
+      lowers (iter_hints limit m (map ref_of F0) (map (map ref_of) st)) = countdown (fleaves F0 + sleaves st).
+  Proof.
+    induction limit as [|l IHl].
+    - intros F0 st _ _ _ _ _ Hsz _.
+      pose proof (fleaves_le_fsize F0). pose proof (sleaves_le_ssize st).
+      replace (fleaves F0 + sleaves st) with 0 by lia. reflexivity.
+    - intros F0 st; revert F0. induction st as [|s st IHst]; intros F0 HF Hst CF Cst Hok Hsz Hmax.
+      + destruct F0 as [|t rest].
+        * reflexivity.
+        * cbn [map iter_hints pop_nonempty].
+          inversion HF as [|t' rest' Ht Hrest]; subst.
+          inversion CF as [|t' rest' Ct Crest]; subst.
+          destruct Hok as [Hh _]. cbn [length] in Hh. rewrite fheight_cons in Hh.
+          destruct t as [id|id ks].
+          -- unfold ref_of at 1; cbn [root_id fst snd]. destruct id as [i g]; cbn [fst snd].
+             rewrite (node_type_leaf _ _ Ht).
+             change (@nil (list obj)) with (map (map ref_of) []).
+             rewrite lowers_cons.
+             rewrite hint_forest;
+               [ | assumption | constructor | assumption | constructor
+                 | rewrite ?fsize_leaf, ?ssize_nil in *; lia | lia ].
+             rewrite IHl;
+               [ | assumption | constructor | assumption | constructor
+                 | cbn [stack_ok length height] in *; split; [lia|exact I]
+                 | rewrite ?fsize_leaf, ?ssize_cons, ?ssize_nil in *; lia | lia ].
+             rewrite (fleaves_cons (PLeaf (i, g))). cbn [leaves length]. reflexivity.
+          -- unfold ref_of at 1; cbn [root_id fst snd]. destruct id as [i g]; cbn [fst snd].
+             rewrite (node_type_node _ _ _ Ht).
+             rewrite height_node in Hh.
+             rewrite (depth_test [] 0) by (reflexivity || lia).
+             rewrite (kids_of_node _ _ _ Ht).
+             change (@nil (list obj)) with (map (map ref_of) []).
+             rewrite push_rest_map.
+             rewrite IHl.
+             ++ rewrite fleaves_node. destruct rest as [|r rest];
+                  [ change (fleaves []) with 0; f_equal; lia | rewrite (sleaves_cons (r :: rest) []); f_equal; lia ].
+             ++ exact (represents_kids _ _ _ Ht).
+             ++ destruct rest; [constructor|]. constructor; [assumption|constructor].
+             ++ exact (counts_kids _ _ Ct).
+             ++ destruct rest; [constructor|]. constructor; [assumption|constructor].
+             ++ destruct rest as [|r rest]; cbn [stack_ok length].
+                ** split; [lia|exact I].
+                ** split; [lia|]. split; [|exact I]. cbn [length]. lia.
+             ++ rewrite fsize_node in Hsz.
+                destruct rest as [|r rest]; rewrite ?ssize_cons, ?ssize_nil, ?fsize_nil in *; lia.
+             ++ lia.
+      + inversion Hst as [|s' st' Hs Hst']; subst.
+        inversion Cst as [|s' st' Cs Cst']; subst.
+        destruct F0 as [|t rest].
+        * cbn [map]. rewrite iter_hints_pop.
+          rewrite IHst; try assumption.
+          -- rewrite sleaves_cons. unfold fleaves at 3. cbn [flat_map length]. reflexivity.
+          -- destruct Hok as [_ Hok]. exact Hok.
+          -- rewrite ssize_cons, fsize_nil in Hsz. lia.
+        * cbn [map iter_hints pop_nonempty].
+          inversion HF as [|t' rest' Ht Hrest]; subst.
+          inversion CF as [|t' rest' Ct Crest]; subst.
+          destruct Hok as [Hh Hok]. rewrite fheight_cons in Hh.
+          destruct t as [id|id ks].
+          -- unfold ref_of at 1; cbn [root_id fst snd]. destruct id as [i g]; cbn [fst snd].
+             rewrite (node_type_leaf _ _ Ht).
+             change (map ref_of s :: map (map ref_of) st) with (map (map ref_of) (s :: st)).
+             rewrite lowers_cons.
+             rewrite hint_forest;
+               [ | assumption | assumption | assumption | assumption
+                 | rewrite ?fsize_leaf in *; lia | lia ].
+             rewrite IHl;
+               [ | assumption | assumption | assumption | assumption
+                 | cbn [stack_ok length height] in *; split; [lia|exact Hok]
+                 | rewrite ?fsize_leaf, ?ssize_cons, ?ssize_nil in *; lia | lia ].
+             rewrite (fleaves_cons (PLeaf (i, g))). cbn [leaves length]. reflexivity.
+          -- unfold ref_of at 1; cbn [root_id fst snd]. destruct id as [i g]; cbn [fst snd].
+             rewrite (node_type_node _ _ _ Ht).
+             rewrite height_node in Hh.
+             change (map ref_of s :: map (map ref_of) st) with (map (map ref_of) (s :: st)).
+             rewrite (depth_test _ (length (s :: st))) by (rewrite ?map_length; reflexivity || lia).
+             rewrite (kids_of_node _ _ _ Ht).
+             rewrite push_rest_map.
+             rewrite IHl.
+             ++ rewrite fleaves_node. destruct rest as [|r rest];
+                  [ change (fleaves []) with 0; f_equal; lia | rewrite (sleaves_cons (r :: rest) (s :: st)); f_equal; lia ].
+             ++ exact (represents_kids _ _ _ Ht).
+             ++ destruct rest; [assumption|]. constructor; assumption.
+             ++ exact (counts_kids _ _ Ct).
+             ++ destruct rest; [assumption|]. constructor; assumption.
+             ++ destruct rest as [|r rest]; cbn [stack_ok].
+                ** split; [lia|exact Hok].
+                ** split; [cbn [length] in *; lia|]. split; [lia|exact Hok].
+             ++ rewrite fsize_node in Hsz.
+                destruct rest as [|r rest]; rewrite ?ssize_cons, ?ssize_nil, ?fsize_nil in *; lia.
+             ++ lia.
+  Qed.
+End Count.
+
+(* the full statement: with every Count right, the fresh iterator announces n pages and after the k-th page n-k *)
+Theorem hint_countdown :
+  forall d cat i g ks,
+    catalog d = Some cat ->
+    dict_get cat K_Pages = Some (ORef i g) ->
+    tree_wf d (PNode (i, g) ks) ->
+    Forall (counts_exact (d_objects d)) ks ->
+    (N.of_nat (height (PNode (i, g) ks)) <= PAGE_TREE_DEPTH_LIMIT + 1)%N ->
+    (N.of_nat (length (d_objects d)) <= USIZE_MAX)%N ->
+    fst (fst (page_hints d)) :: lowers (snd (page_hints d)) = countdown (S (length (leaves (PNode (i, g) ks)))).
+Proof.
+  intros d cat i g ks Hcat Hp Hwf Hc Hh Hmax.
+  cbn [countdown]. f_equal; [exact (hint_exact_initial d cat i g ks Hcat Hp Hwf Hc Hmax)|].
+  destruct Hwf as [Hrep Hnd].
+  unfold page_hints. rewrite Hcat, Hp. cbn [snd].
+  rewrite (kids_of_node _ _ _ Hrep).
+  change (@nil (list obj)) with (map (map ref_of) []).
+  rewrite iter_hints_forest; try assumption; try constructor.
+  - unfold sleaves, fleaves. cbn [flat_map length leaves]. f_equal. lia.
+  - exact (represents_kids _ _ _ Hrep).
+  - cbn [length]. rewrite height_node in Hh. lia.
+  - exact I.
+  - pose proof (size_le_objects _ _ Hrep Hnd) as Hs. cbn [ids length] in Hs.
+    unfold fsize, ssize. cbn [flat_map length]. lia.
+Qed.
